@@ -30,6 +30,8 @@ def _iname(c):
     if c.get("start_code"):
         p.append("sc=" + c["start_code"])
     p.append("chunk=%s" % (c.get("chunk") or "real"))
+    if c.get("trailing"):
+        p.append("trailing=" + c["trailing"])
     return " ".join(p)
 
 
@@ -114,6 +116,11 @@ def run_inject(job):
     if res.crashed():
         out["fail"] = ("no crash", res.brief())
         return out
+    if job.get("model_only"):
+        # NALs behind the last slice: outside the access-unit template the reference oracle speaks about; the Lean
+        # model says what the tool does with them (inject_drops_trailing_nals) and only that is compared
+        out["class"] = "model-only(trailing NALs)"
+        return out
     if res.rc != 0:
         if job["may_fail"]:
             out["class"] = "unspecified-error(no RPU precedes a frame beyond the list)"
@@ -167,7 +174,9 @@ def run(ctx):
                 "return the RPUs sorted by (period, POC) as chosen by the generator; inject-rpu (list length =, <, > frame count, "
                 "--no-add-aud, --start-code, existing RPUs present or not) must give every frame rpus[display index] after its last "
                 "non-EOS/EOB NAL with all other NALs kept in order, and extract-rpu of the result must give the list back; "
-                "non-trivial = passed run on a stream whose decode order differs from its display order; distinct by (stream, config)")
+                "non-trivial = passed run on a stream whose decode order differs from its display order; distinct by (stream, config); "
+                "about 1 inject-rpu case in 12 carries NALs behind its last slice (an AUD / an AUD + prefix SEI / VPS SPS PPS, which "
+                "hevc_parser labels with the frame count): compared with the Lean model only (the tool drops them)")
     ctx.assumptions = ["POC differences to the previous temporal-id-0 reference picture below half the LSB range (H.265 8.3.1 precondition)",
                        "all POCs non-negative; BLA LSBs not far above the previous POC (hevc_parser computes POCs in u64 and overflows "
                        "otherwise: third-party limit, see README-hevcgen.md)",
@@ -290,7 +299,11 @@ def run(ctx):
         has_rpu = r.chance(1, 3)
         old = r.shuffle(rpus_all)[:nfr]
         st, base = new_stream(r, nfr, pb, old if has_rpu else None, rpu=has_rpu)
-        data = st.render()
+        # NALs behind the last slice (own fork: the other choices of the case are those of a run without this family)
+        rt = r.fork("trailing")
+        trail_kind = rt.choice(M.TRAILING_KINDS) if rt.chance(1, 12) else None
+        trail = M.gen_trailing(rt, st.codec, trail_kind, st.specs[-1].stype, {"four": 4, "three": 3}.get(base["sc"])) if trail_kind else []
+        data = st.render() + H.render(trail)
         if len(data) > REAL_CHUNK - 3000:
             continue
         stream_stats(st, pb)
@@ -309,7 +322,9 @@ def run(ctx):
         cands = [c_ for c_ in (1024, 2048, 4096, 8192) if c_ >= mx] + [None]
         c = {"list": lst, "no_add_aud": r.chance(1, 3), "start_code": r.choice([None, None, "four", "annex-b"]),
              "chunk": r.choice(cands), "chunk2": r.choice([64, 257, 4096, None]), "iflag": r.chance(1, 2)}
-        exp = F.ref_inject(st, fresh, no_add_aud=c["no_add_aud"], start_code=c["start_code"])
+        if trail_kind:
+            c["trailing"] = trail_kind
+        exp = None if trail_kind else F.ref_inject(st, fresh, no_add_aud=c["no_add_aud"], start_code=c["start_code"])
         pres = st.pres()
         # an error is tolerated only when a frame beyond the list is decoded before any frame inside it
         may_fail = False
@@ -330,8 +345,8 @@ def run(ctx):
         sid = len(streams)
         streams.append((st, data))
         ijobs.append({"cfg": c, "sid": sid, "rpus": fresh, "expected": exp, "expected_back": back, "may_fail": may_fail,
-                      "mline": M.inject_line(st, fresh, no_add_aud=c["no_add_aud"], start_code=c["start_code"]), "pres": pres,
-                      "check_sc": True, "has_rpu": has_rpu, "nfr": nfr, "n_list": n_list})
+                      "mline": M.inject_line(st, fresh, no_add_aud=c["no_add_aud"], start_code=c["start_code"], trailing=trail),
+                      "pres": pres, "check_sc": True, "has_rpu": has_rpu, "nfr": nfr, "n_list": n_list, "model_only": bool(trail_kind)})
 
     with R.Work("C07") as work:
         for sid, (st, data) in enumerate(streams):
@@ -346,7 +361,7 @@ def run(ctx):
             # extract-rpu of what the model says inject-rpu writes; only the labels of the RPUs matter there
             # (k-th RPU = frame k, one RPU per frame)
             m, _ = M.parse_list(j["model_ans"])
-            if m is not None:
+            if m is not None and not j.get("model_only"):
                 items, k = [], 0
                 for t, d, _ in m:
                     items.append((t, d, k))
@@ -374,6 +389,9 @@ def run(ctx):
                     ctx.count("inject start_code=%s" % (c.get("start_code") or "default"))
                     if c.get("no_add_aud"):
                         ctx.count("inject opt=no_add_aud")
+                    if c.get("trailing"):
+                        ctx.count("inject NALs behind the last slice (model correspondence only)")
+                        ctx.count("inject trailing=%s%s" % (c["trailing"], " no_add_aud" if c.get("no_add_aud") else ""))
                 for kk, vv in o["notes"].items():
                     ctx.count("note:" + kk, vv)
                 ctx.count("outcome=" + ("FAIL" if o["fail"] else o.get("class", "ok")))
